@@ -149,7 +149,7 @@ CHECKS = {
         parts=[dict(pkg="./redis-shake/checkpoint", harness=["checkpoint"], test="^TestVerif_C14$", shards=16, budget=dict(quick=60, thorough=900)),
                dict(pkg="./redis-shake/dbSync", harness=["dbsync"], test="^TestVerif_C14S$", shards=16, gomaxprocs=2, budget=dict(quick=60, thorough=600)),
                # restarts: a fresh whole Sync() run stores its checkpoint, then a restarted process whose first 0-2 PSYNCs are refused (Sync() starts again on the same object), standalone and cluster sources
-               dict(pkg="./redis-shake/dbSync", harness=["dbsync"], test="^TestVerif_C14R$", shards=12, gomaxprocs=2, budget=dict(quick=90, thorough=300))],
+               dict(pkg="./redis-shake/dbSync", harness=["dbsync"], test="^TestVerif_C14R$", shards=16, gomaxprocs=2, budget=dict(quick=90, thorough=300))],
     ),
     "C20": dict(
         level="model_checking",
